@@ -47,7 +47,7 @@ def from_json(x):
     return x
 
 
-STMT_KINDS = {"expr", "decl", "declp", "if", "block", "for", "store", "jump", "empty", "return"}
+STMT_KINDS = {"expr", "decl", "declp", "if", "block", "for", "store", "jump", "empty", "return", "label"}
 ATOM_KINDS = {"reg", "newreg", "explicit", "alias", "imm", "id", "num"}
 
 
@@ -374,6 +374,10 @@ def shrink_ast(s):
             yield ("for", s[1], s[2], s[3], y)
         for y in shrink_expr(s[2]):
             yield ("for", s[1], y, s[3], s[4])
+    elif k == "label":
+        yield s[2]
+        for y in shrink_ast(s[2]):
+            yield ("label", s[1], y)
     elif k == "expr":
         for y in shrink_expr(s[1]):
             yield ("expr", y)
